@@ -51,6 +51,32 @@ def insts(thorough):
     return out
 
 
+XCV_VALUES_QUICK = [(2, 3, 4), (3, 1, 2)]
+XCV_VALUES_THOROUGH = [(2, 3, 4), (3, 1, 2), (0, 2, 3), (5, 2, 1), (1, 1, 3)]
+
+
+def xcv_pairs(thorough):
+    """All pairs (source pattern, target pattern) of compatible extents types of equal rank 1..3: every combination of
+    which positions are static/dynamic on either side (incl. the same number of dynamic extents at different positions),
+    static values from a few value vectors, source/target index types rotating over int/unsigned/long/short."""
+    out, ty, k = [], "iuls", 0
+    for R in (1, 2, 3):
+        for V in (XCV_VALUES_THOROUGH if thorough else XCV_VALUES_QUICK if R < 3 else XCV_VALUES_QUICK[:1]):
+            for ms in itertools.product((0, 1), repeat=R):
+                for md in itertools.product((0, 1), repeat=R):
+                    ps = tuple("d" if ms[r] else V[r] for r in range(R))
+                    pd = tuple("d" if md[r] else V[r] for r in range(R))
+                    ts_, td = ty[k % 4], ty[(k + k // 4) % 4]
+                    k += 1
+                    if (ts_, ps, td, pd) not in [(a, b, c, d) for a, b, c, d, _ in out]:
+                        out.append((ts_, ps, td, pd, V[:R]))
+    return out
+
+
+def xname(ts_, ps, td, pd):
+    return "%s>%s" % (iname(ts_, ps), iname(td, pd))
+
+
 def pstr(p):
     return ",".join(str(x) for x in p) if p else "-"
 
@@ -103,6 +129,20 @@ def gen_sources(ctx, nparts, thorough, tag):
         src = os.path.join(gd, "tu_%d.cc" % k)
         open(src, "w").write("\n".join(L[:2] + pre + L[2:]) + "\n")
         srcs.append(src)
+    XP = xcv_pairs(thorough) if tag != "san" or thorough else []   # quick: the sanitizer variant only runs view/array/span cases
+    nx = (len(XP) + 11) // 12
+    for j in range(nx):
+        k = nparts + j
+        L = ['#include "c14_impl.hh"', "namespace c14 {"]
+        ent = []
+        for n, (ts_, ps, td, pd, _) in enumerate(XP[j::nx]):
+            L.append("using XS%d = %s; using XD%d = %s;" % (n, ctype(ts_, ps), n, ctype(td, pd)))
+            ent.append('    {"xcv/%s", &run_xcv<XS%d, XD%d>},' % (xname(ts_, ps, td, pd), n, n))
+        L += ["const std::vector<Entry>& tab_%d() {" % k, "  static const std::vector<Entry> t = {"] + ent + ["  };", "  return t;", "}", "}"]
+        src = os.path.join(gd, "tu_%d.cc" % k)
+        open(src, "w").write("\n".join(L) + "\n")
+        srcs.append(src)
+    nparts += nx
     idx = ['#include "c14_impl.hh"', "namespace c14 {"] + ["const std::vector<Entry>& tab_%d();" % k for k in range(nparts)]
     idx += ["int table_parts() { return %d; }" % nparts, "const std::vector<Entry>& table_part(int k) {", "  switch (k) {"]
     idx += ["    case %d: return tab_%d();" % (k, k) for k in range(nparts)] + ["  }", "  return tab_0();", "}", "}"]
@@ -277,6 +317,33 @@ def gen(ctx, I, PI):
             if "d" not in p and n == 0:
                 for l in "LR":
                     cases.append("mdasa %s lay=%s E=%s" % (nm, l, lst(E)))
+    # extents whose product is just below the limit of index_type (short): every tuple still enumerated
+    big = [("s:d", [32767]), ("s:d,d", [181, 181]), ("s:d,d", [1, 32767]), ("s:d,d,d", [127, 129, 2])]
+    if not quick:
+        big += [("s:d,d", [32767, 1]), ("s:d,d", [2, 16383]), ("s:d,d,d", [31, 33, 32]), ("s:d,d,d", [2, 2, 8191]), ("s:d,d", [5461, 6])]
+    for nm, E in big:
+        for S in ([strides_right(E)] if quick else [strides_right(E), strides_left(E)]):
+            cases.append("map %s E=%s S=%s" % (nm, lst(E), lst(S)))
+        cases.append("mds %s lay=%s E=%s S=%s base=0" % (nm, rng.choice("LR"), lst(E), lst(strides_right(E))))
+        cases.append("mda %s lay=%s k=mapv E=%s" % (nm, rng.choice("LR"), lst(E)))
+    # conversions between compatible extents types (all static/dynamic shape pairs)
+    for ts_, ps, td, pd, VV in xcv_pairs(not quick):
+        nm = xname(ts_, ps, td, pd)
+        free = [r for r in range(len(VV)) if ps[r] == "d" and pd[r] == "d"]
+        combos = [tuple(VV[r] for r in free)]
+        if free:
+            allc = list(itertools.product(VALS, repeat=len(free)))
+            combos += rng.sample(allc, min(len(allc), 2 if quick else 5))
+        seen = set()
+        for cmb in combos:
+            E = list(VV)
+            for r, x in zip(free, cmb):
+                E[r] = x
+            if tuple(E) in seen or prod(E) > 300:
+                continue
+            seen.add(tuple(E))
+            S = unique_strides(rng, E, rng.choice(["perm", "pad"]))
+            cases.append("xcv %s E=%s S=%s base=%d" % (nm, lst(E), lst(S), rng.choice([0, 2])))
     # probes
     for t, p in PI:
         nm = iname(t, p)
@@ -537,6 +604,32 @@ def oracle(case, impl, model):
         if v != src:
             return "copy", "array elements %s, view elements %s" % (v, src)
         return None
+    if op == "xcv":
+        secs = [x.strip() for x in impl.split(" | ")]
+        d0 = kvs(secs[0])
+        if il(d0.get("ext")) != E:
+            return "ext", "converted extents are %s, source extents %s" % (d0.get("ext"), E)
+        if il(d0.get("back")) != E or d0.get("eq") != "1":
+            return "ext", "conversion back gives %s / operator== %s (source %s)" % (d0.get("back"), d0.get("eq"), E)
+        for sct in secs[1:]:
+            tag, _, rest = sct.partition(" ")
+            d = kvs(rest)
+            if il(d.get("ext")) != E:
+                return tag, "%s: extents after conversion %s, source %s" % (tag, d.get("ext"), E)
+            lay = tag[-1]
+            ss = strides_left(E) if lay == "L" else strides_right(E) if lay == "R" else S
+            if tag in ("L", "R", "S"):
+                r = check_layout(tag, d, E, lay if lay in "LR" else S)
+                if r:
+                    return tag, "converted mapping: " + r
+            elif tag.startswith("sp"):
+                want = [base + dot(i, ss) for i in T]
+                if il(d.get("p")) != want or d.get("size") != str(prod(E)):
+                    return tag, "%s: converted view addresses %s (size %s), source view %s" % (tag, d.get("p"), d.get("size"), want)
+            elif tag.startswith("ar"):
+                if il(d.get("v")) != [7000 + q for q in range(len(T))] or d.get("cs") != str(prod(E)):
+                    return tag, "%s: converted array elements %s (container size %s)" % (tag, d.get("v"), d.get("cs"))
+        return None
     if op == "p4eq":
         return None if impl == model else ("eq", "operator== : %s, expected %s" % (impl, model))
     if op == "span":
@@ -547,6 +640,10 @@ def oracle(case, impl, model):
 def sig_of(case, aspect):
     op, inst, cd = parse_case(case)
     lay = cd.get("lay", cd.get("x", ""))
+    if op == "xcv":
+        ps, pd = [x.split(":")[1] for x in inst.split(">")]
+        nd = lambda q: q.split(",").count("d")
+        lay = "same-dyn-count" if nd(ps) == nd(pd) and ps != pd else "to-dynamic" if nd(pd) > nd(ps) else "to-static" if nd(pd) < nd(ps) else "same-pattern"
     return "C14:%s:%s:%s" % (op, lay, aspect) if lay else "C14:%s:%s" % (op, aspect)
 
 
@@ -629,17 +726,18 @@ def run(ctx):
     for c in cases:
         op, inst, cd = parse_case(c)
         if op != "span":
-            tuples_enumerated += prod(il(cd.get("E")))
+            tuples_enumerated += prod(il(cd.get("E"))) * (8 if op == "xcv" else 1)
     nontrivial = len(set(c for c in cases if c.split()[0] == "span" or prod(il(parse_case(c)[2].get("E"))) > 1))
     ctx.coverage.update({
         "evaluations": len(cases), "distinct_nontrivial": nontrivial,
         "rule": "cases = corpus + for every instantiation (index type x static/dynamic pattern, rank 0-4, static extents in {0,1,2,3,5}): dynamic extents "
                 "exhaustively over {0,1,2,3,5}^rank_dynamic (sampled beyond 8/40 combinations), strides canonical-left, canonical-right, permuted and "
-                "padded (unique by construction); per case EVERY valid index tuple is enumerated; non-trivial = index space with more than one tuple "
+                "padded (unique by construction); conversions between ALL pairs of compatible extents types of rank 1-3 (every static/dynamic shape "
+                "on either side, rotating index types) directly and through mapping/mdspan/mdarray converting constructors; per case EVERY valid index tuple is enumerated; non-trivial = index space with more than one tuple "
                 "(or a span case); distinct = distinct case lines",
         "samples": cases[:2] + cases[len(cases) // 3: len(cases) // 3 + 2] + cases[-2:],
         "op_distribution": {k: v for k, v in stats.items() if not k.startswith("_")},
-        "oracle_rejections_by_signature": stats.get("_rejections_by_signature", {}), "instantiations": len(I), "probe_instantiations": len(PI),
+        "oracle_rejections_by_signature": stats.get("_rejections_by_signature", {}), "instantiations": len(I), "probe_instantiations": len(PI), "extents_conversion_pairs_instantiated": len(xcv_pairs(thorough)),
         "index_tuples_enumerated": tuples_enumerated,
         "probes_compile": {"p%d" % k: (v is None) for k, v in perr.items()},
         "impl_model_disagreements": ndis, "oracle_rejections": nviol, "sanitizer_cases": nsan,
